@@ -101,7 +101,7 @@ def check_problem(ctx, rep, spec, i_problem):
                         ok_must = ok_may = False
                 else:
                     ok_must = False     # inactive: allowed, not required
-            key = tuple('c' if is_cont[j] else xv for j, xv in enumerate(x))
+            key = tuple('c' if is_cont[j] else xv for j, xv in enumerate(x) if j not in fixed)
             if ok_must:
                 must.add(key)
             if ok_may:
@@ -128,7 +128,7 @@ def check_problem(ctx, rep, spec, i_problem):
             dis('restricted-enumeration-exc', case, {'exc': repr(e)[:200]})
             return
         got = full_rows(gp_r, rows, fixed)
-        gkeys = [tuple('c' if is_cont[j] else xv for j, xv in enumerate(x)) for x, _ in got]
+        gkeys = [tuple('c' if is_cont[j] else xv for j, xv in enumerate(x) if j not in fixed) for x, _ in got]
         must, may = expected(fixed)
         if len(set(gkeys)) != len(gkeys):
             dis('restricted-duplicate-rows', case, {})
@@ -137,6 +137,20 @@ def check_problem(ctx, rep, spec, i_problem):
                 fixed_conditional=cond)
         if set(gkeys) - may:
             dis('restricted-design-not-in-original', case, {'extra': sorted(set(gkeys) - may)[:3]}, fixed_conditional=cond)
+        # exact comparison with the model's restriction (Adsg.Proc.restrictRows) on the discrete columns
+        kinds = ['conn' if is_conn[j] else ('dv' if isinstance(dvs[j].node, DesignVariableNode) else 'sel') for j in range(n)]
+        mrows = [[None if not a else (0 if is_cont[j] else int(v)) for j, (v, a) in enumerate(zip(x, act))] for x, act in base]
+        disc_fixed = {i: v for i, v in fixed.items() if not is_cont[i]}
+        mr = ctx.driver.ask('restrict', kinds=kinds, n_opts=[(dv.n_opts if dv.is_discrete else 1) for dv in dvs], rows=mrows,
+                            ops=[{'op': 'fix', 'i': i, 'v': int(v)} for i, v in sorted(disc_fixed.items())])
+        want_rows = sorted(tuple(r) for r in mr['rows'])
+        got_rows = sorted(tuple(None if (a is False) else (0 if is_cont[j] else int(v)) for j, (v, a) in enumerate(zip(x, act_)))
+                          for x, act_ in [(fx, [a if j not in fixed else True for j, a in enumerate(fa)]) for fx, fa in got])
+        # fixed columns carry no activeness in the restricted enumeration: compare them on the value only
+        def strip(rows_):
+            return sorted(tuple('f' if j in fixed else v for j, v in enumerate(r)) for r in rows_)
+        if strip(got_rows) != strip(want_rows):
+            dis('restricted-rows-vs-model', case, {'n_impl': len(got_rows), 'n_model': len(want_rows)}, fixed_conditional=cond)
         if nv_f != len(rows):
             dis('restricted-count-mismatch', case, {'n_valid_with_fixed': int(nv_f), 'rows': len(rows)}, fixed_conditional=cond)
         # decodes of the restricted problem stay inside the restricted set and respect the fixed values
@@ -150,7 +164,7 @@ def check_problem(ctx, rep, spec, i_problem):
                     dis('restricted-decode-exc', dict(case, x=[float(v) for v in x]), {'exc': repr(e)[:200]}, fixed_conditional=cond)
                 continue
             fx = full_rows(gp_r, [([float(v) for v in xi], [bool(a) for a in act])], fixed)[0][0]
-            key = tuple('c' if is_cont[j] else xv for j, xv in enumerate(fx))
+            key = tuple('c' if is_cont[j] else xv for j, xv in enumerate(fx) if j not in fixed)
             if key not in set(gkeys):
                 dis('restricted-decode-outside-subset', dict(case, x=[float(v) for v in x]), {'decoded': list(fx)}, fixed_conditional=cond)
                 break
@@ -238,7 +252,7 @@ def check_problem(ctx, rep, spec, i_problem):
 
 
 def run(ctx, rep):
-    n = ctx.pick(60, 2500)
+    n = ctx.pick(300, 4000)
     i = 0
     for i in range(n):
         spec = proc.gen_problem(ctx.rng, streams=('tame', 'tree', 'cons', 'dv', 'dv', 'conn-dv'))
